@@ -38,7 +38,16 @@ def rentry(r):
     p = rpath(r, allow_slash=(tag != 'DIST'))
     size = r.choice([0, 1, 5, 2**32, 2**64, 2**64 + 1, 10**30, r.randint(0, 10**6)])
     names = r.sample(HASHNAMES[:10], r.randint(0, 10))
-    cks = [[n, ''.join(r.choice('0123456789abcdef') for _ in range(r.choice([1, 8, 32])))] for n in names]
+    if r.random() < 0.1:
+        # names outside the GLEP 74 list: the text format carries any name
+        names = names + r.sample(['FOO', 'sha1', 'Sha512', 'X-Y', 'SHA384', '\u00dcn\u00ef'], r.randint(1, 2))
+    def value():
+        # digests as tools write them (lower-case hex), as other tools may (upper / mixed case), and arbitrary non-blank tokens
+        k = r.random()
+        abc = '0123456789abcdef' if k < 0.7 else '0123456789ABCDEF' if k < 0.82 else '0123456789abcdefABCDEF' if k < 0.9 \
+            else 'GHXYZghxyz+/=_-' if k < 0.96 else '\u00c4\u00e9\u0130\u1e9e\u03a3\u03c2'
+        return ''.join(r.choice(abc) for _ in range(r.choice([1, 8, 32])))
+    cks = [[n, value()] for n in names]
     if tag == 'AUX':
         return ['file', tag, 'files/' + p, p, size, cks]
     return ['file', tag, p, '', size, cks]
